@@ -21,10 +21,11 @@ func Send[T any](ch chan<- T, v T) {
 		Block(0, "send on nil chan", func() bool { return false })
 		return
 	}
-	if cap(ch) == 0 {
-		Unsupported("send on unbuffered channel")
-	}
 	key := chanKeyS(ch)
+	if cap(ch) == 0 {
+		sendUnbuffered(key, any(v))
+		return
+	}
 	Block(key, "chan send", func() bool {
 		select {
 		case ch <- v:
@@ -50,6 +51,21 @@ func Recv2[T any](ch <-chan T) (v T, ok bool) {
 		return
 	}
 	key := chanKeyR(ch)
+	if cap(ch) == 0 {
+		x, got := recvUnbuffered(key, func() bool {
+			select {
+			case _, o := <-ch:
+				return !o // only a closed channel is ever readable for real
+			default:
+				return false
+			}
+		})
+		if got {
+			v, _ = x.(T)
+			return v, true
+		}
+		return v, false
+	}
 	Block(key, "chan recv", func() bool {
 		select {
 		case v, ok = <-ch:
@@ -60,6 +76,59 @@ func Recv2[T any](ch <-chan T) (v T, ok bool) {
 	})
 	Wake(key)
 	return
+}
+
+// Unbuffered channels are emulated: the real channel never carries data (nobody ever blocks in a
+// real channel operation under the coop runtime). A sender publishes an offer and parks until a
+// receiver has taken it; close is performed for real, so a receiver that finds no offer sees it.
+type offer struct {
+	v     any
+	taken bool
+}
+
+func (s *Sched) offers(key uintptr) *[]*offer {
+	if s.unbuf == nil {
+		s.unbuf = map[uintptr]*[]*offer{}
+	}
+	if s.unbuf[key] == nil {
+		s.unbuf[key] = &[]*offer{}
+	}
+	return s.unbuf[key]
+}
+
+func sendUnbuffered(key uintptr, v any) {
+	s := S
+	o := &offer{v: v}
+	q := s.offers(key)
+	Point("chan send")
+	*q = append(*q, o)
+	Wake(key)
+	Block(key, "chan send (unbuffered)", func() bool { return o.taken })
+}
+
+func recvUnbuffered(key uintptr, closed func() bool) (any, bool) {
+	s := S
+	var got *offer
+	isClosed := false
+	Block(key, "chan recv (unbuffered)", func() bool {
+		q := s.offers(key)
+		if len(*q) > 0 {
+			got = (*q)[0]
+			*q = (*q)[1:]
+			return true
+		}
+		if closed() {
+			isClosed = true
+			return true
+		}
+		return false
+	})
+	if isClosed || got == nil {
+		return nil, false
+	}
+	got.taken = true
+	Wake(key)
+	return got.v, true
 }
 
 // Recv is the cooperative `<-ch`.
@@ -137,6 +206,24 @@ func Select(cases ...SelCase) (int, reflect.Value, bool) {
 	me := s.cur
 	for {
 		s.point("select")
+		// receive clauses on unbuffered channels are served from the emulated offers first
+		took := false
+		for i, c := range cases {
+			if c.c.Dir == reflect.SelectRecv && c.c.Chan.IsValid() && c.c.Chan.Cap() == 0 {
+				if q := s.offers(c.key); len(*q) > 0 {
+					o := (*q)[0]
+					*q = (*q)[1:]
+					o.taken = true
+					idx, val, okk = i, reflect.ValueOf(o.v), true
+					took = true
+					break
+				}
+			}
+		}
+		if took {
+			s.progress++
+			break
+		}
 		idx, val, okk = reflect.Select(rc)
 		if idx != len(rc)-1 {
 			s.progress++
